@@ -2485,6 +2485,58 @@ impl Transport {
     }
 }
 
+/// Verification hooks (feature `verif`, C20 rendezvous unit stream): the private `Transport::resolve`
+/// with a caller-chosen time-out, and the exact state of the two single-occupancy mDNS rendezvous slots.
+#[cfg(feature = "verif")]
+impl Transport {
+    /// `Transport::resolve` for an operational service instance (the private function itself).
+    pub async fn verif_resolve(
+        &self,
+        compressed_fabric_id: u64,
+        node_id: u64,
+        timeout_ms: u32,
+    ) -> Result<usize, Error> {
+        self.resolve(
+            MatterRemoteService::Operational {
+                compressed_fabric_id,
+                node_id,
+            },
+            timeout_ms,
+        )
+        .await
+        .map(|node| node.addrs.len())
+    }
+
+    /// `(resolve slot, browse slot)`: `b'i'` Idle, `b'q'` Requested, `b'f'` InFlight,
+    /// `b'r'` Resolved / Found.
+    pub fn verif_mdns_rendezvous_state(&self) -> (u8, u8) {
+        (
+            self.mdns_resolve.modify(|state| {
+                (
+                    false,
+                    match state {
+                        MdnsResolveState::Idle => b'i',
+                        MdnsResolveState::Requested { .. } => b'q',
+                        MdnsResolveState::InFlight { .. } => b'f',
+                        MdnsResolveState::Resolved { .. } => b'r',
+                    },
+                )
+            }),
+            self.mdns_browse.modify(|state| {
+                (
+                    false,
+                    match state {
+                        MdnsBrowseState::Idle => b'i',
+                        MdnsBrowseState::Requested { .. } => b'q',
+                        MdnsBrowseState::InFlight { .. } => b'f',
+                        MdnsBrowseState::Found { .. } => b'r',
+                    },
+                )
+            }),
+        )
+    }
+}
+
 /// Verification hooks (feature `verif`): run the synchronous sweep steps of the transport on a
 /// stand-in for the RX / TX packet slot.
 #[cfg(feature = "verif")]
